@@ -82,6 +82,18 @@ def section():
         proceed, data = process(hdr(by_name["send_data"][0], bad))
         assert proceed and "input" not in data.response.enip
         out.append(f"def failStatusDefault : Nat := {data.response.enip.status}")
+        # the status left by a routed request that fails: a routing table entry leading to a closed port
+        logix.setup_reset()
+        dead = type("UCMM_dead_route", (ucmm.UCMM,), {"route": {"1/9": "127.0.0.1:1"}})
+        routed = (b"\x00\x00\x00\x00\x05\x00\x02\x00\x00\x00\x00\x00\xb2\x00\x14\x00"
+                  + b"\x52\x02\x20\x06\x24\x01\x05\x9d\x06\x00" + b"\x0e\x02\x20\x02\x24\x01" + b"\x01\x00\x01\x09")
+        data = cpppo.dotdict()
+        with parser.enip_machine(context="enip") as machine:
+            for _m, _s in machine.run(path="request", source=cpppo.peekable(hdr(by_name["send_data"][0], routed)), data=data):
+                pass
+        proceed = logix.process(("127.0.0.1", 1), data=data, UCMM_class=dead)
+        assert proceed and "input" not in data.response.enip and data.response.enip.status, repr(data.response.enip)
+        out.append(f"def routeFailStatus : Nat := {data.response.enip.status}")
     finally:
         device.directory, device.symbol, logix.setup.ucmm = saved_dir, saved_sym, saved_ucmm
         ucmm.UCMM.sessions.clear()
